@@ -48,6 +48,24 @@ CLAIMED = {
  "C09": ("type-fact analysis (T-GUARD) for every single-result type assertion (tag tests, matchTypes, same-type classes, facts at all call sites, constant-specialised callee results), bounds-fact analysis for every index/slice expression, nil-implies-recorded-error dominance in the parser, natural-loop and call-graph-SCC progress analysis (T-PROG), sentence-count check of the two parser entry points",
          "Panic-freedom and termination obligations over every function of interpreter and interpreter/language reachable from Language.Match/Update (13 assertions, 58 indexing sites, 12 nil obligations, 59 loops, 8 recursive components), plus the top-level acceptance condition (one sentence, empty rejected). Three indexing sites rest on named assumptions listed in the evidence. Does not decide that every ungrammatical string is rejected by the inner productions, nor stack depth for deeply nested finite inputs.",
          "go/ssa + VTA call graph; AST nodes and objects are finite acyclic trees", "DESIGN.md §4 C09"),
+ "C02": ("comparator lint of the index ordering function on SSA (projection agreement, decided cases, tie-break), control-dependence analysis of the single result append in the search loop, short-circuit/phi analysis of the filter conjunction, field-provenance (T-FLOW) tables for Count/Items and for the QueryInput of all four client sites, dominance of the index-list rebuild over the loop",
+         "Structural necessary conditions of exact iteration: a strict lexicographic (index key, primary key) order, emission governed exactly by the per-item verdict, filter AND key condition, outputs derived from the one search result, request fields plumbed, index list rebuilt once with the same direction flag. The truth of conditions (C06) and the position arithmetic are not decided.",
+         "go/ssa; I1-I3 of C01/C03", "DESIGN.md §4 C02"),
+ "C04": ("field-provenance of start key / limit / last key through the four client sites, loop-carried-value analysis of the item the continuation key is built from, idiom classification (equality vs ordered) of the resume test, error-discipline at the start-key rendering",
+         "ONLY necessary conditions: page accounting (count/scanned/limit arithmetic) is value-level and not decidable by this family – 'at most Limit per page', 'no loss or duplicate at a boundary' are NOT decided. Two known findings (equality resume; discarded start-key error).",
+         "go/ssa", "DESIGN.md §4 C04"),
+ "C06": ("table checks on the typed AST and SSA: precedence constants and their use in the Pratt parser, comparator switch labels vs Go operators and operand order, BETWEEN decomposition, exhaustiveness of Eval and of the registries, NULL-tag idiom lint, effect exclusion (no mutator reachable from Match), undefined-operand constants",
+         "Decides the clauses that are visible in the shape of the code (precedence, operator/label agreement, dispatch exhaustiveness, purity, NULL exists, missing-operand results). The truth value of an arbitrary expression on an arbitrary item is value-level and NOT decided.",
+         "go/ssa + go/ast + VTA call graph", "DESIGN.md §4 C06"),
+ "C07": ("table agreement of the four actions across parser/dispatch/continuation list, per-action may-effect analysis over the call graph (cut at the dispatcher), fall-through return classification per handler, commit-after-success dominance, write-back idiom checks in Environment.Apply, arithmetic label/operator agreement, single-loop evaluate-and-write idiom",
+         "Decides dispatch, permitted effects per action, error on unsupported targets, commit discipline and removal on write-back. Two known findings (every attribute re-serialised; right-hand sides see earlier actions). Resulting values are NOT decided.",
+         "go/ssa + call graph", "DESIGN.md §4 C07"),
+ "C12": ("census of lossy numeric sites: float-typed fields of number objects, numeral<->float conversions, float arithmetic/comparison/map keys on SSA, raw numeral text in key rendering, string ordering of key lists",
+         "Decides the representation only: every site where a DynamoDB number is forced through float64 or compared/ordered as text is listed; all 19 sites found today are known findings (exact decimals need a different number type). Any new or changed site is reported. Numeric results themselves are NOT decided.",
+         "go/ssa + go/types", "DESIGN.md §4 C12"),
+ "C17": ("sibling cross-check: per-operation summaries (guard events, core calls, failure test) extracted from SSA and compared after normalisation; error-code coverage of the v2 mapper against the codes emitted by core; field coverage of description mappers; nil-test dominance before dereference of optional request pointers; provenance comparison of validation arguments and QueryInput fields",
+         "Agreement of the two adapters' structure; 8 known findings (v1-only SDK request validation x7, BatchGetItem missing in v1). Equality of outputs as values is not decided.",
+         "go/ssa + go/ast", "DESIGN.md §4 C17"),
 }
 
 PENDING = {}
